@@ -445,6 +445,16 @@ fn create_file<P1: AsRef<Path>>(
         );
         return Ok(None);
     }
+    // The containing directory is inside the output directory, but the file
+    // itself may already exist as a symbolic link, which would be followed
+    if fs::symlink_metadata(&extracted_path).is_ok_and(|meta| meta.file_type().is_symlink()) {
+        eprintln!(
+            " [!] Skipping file \"{}\" because {} is a symbolic link",
+            fname,
+            extracted_path.display()
+        );
+        return Ok(None);
+    }
     Ok(Some((
         File::create(&extracted_path).map_err(|err| {
             eprintln!(" [!] Unable to create \"{fname}\" ({err:?})");
